@@ -103,7 +103,8 @@ impl Lexer {
     /// tab, or comma. Newlines are not considered whitespace as it is a
     /// token in the lexer.
     fn is_ws(ch: char) -> bool {
-        ch == ' ' || ch == '\t' || ch == ','
+        // A carriage return is the first half of a CRLF line ending
+        ch == ' ' || ch == '\t' || ch == ',' || ch == '\r'
     }
 
     /// Check if the given character is a character usable in a symbol.
